@@ -359,6 +359,14 @@ def shared_buffer_findings(fn_node, helpers):
         if isinstance(x, (ast.FunctionDef, ast.AsyncFunctionDef, ast.ClassDef)):
             return [st]
         if isinstance(x, ast.Assign):
+            if isinstance(x.value, ast.IfExp):
+                # `a, b = (x, y) if c else (y, x)`: one state per arm (the arms never hold together)
+                out_ = []
+                for arm in (x.value.body, x.value.orelse):
+                    y = ast.Assign(targets=x.targets, value=arm)
+                    ast.copy_location(y, x)
+                    out_ += stmt(y, copy(st), in_loop)
+                return out_
             if len(x.targets) == 1 and isinstance(x.targets[0], (ast.Tuple, ast.List)) and all(isinstance(t, ast.Name) for t in x.targets[0].elts):
                 sets = an.tuple_objs(x.value, st, len(x.targets[0].elts))
                 for t, s_ in zip(x.targets[0].elts, sets):
